@@ -536,7 +536,9 @@ pub fn parts(b: &XBook, enc: &XEnc) -> Vec<(String, Vec<u8>)> {
                 let rid = format!("rId{}", rids.len() + 1);
                 // part names are free (OPC): Excel uses xl/tables/tableN.xml, other writers their own folder and file names
                 let part = if enc.odd_table_part_names { format!("tbl/t{table_no}.xml") } else { format!("tables/table{table_no}.xml") };
-                srel.push_str(&format!("<Relationship Id=\"{rid}\" Type=\"http://schemas.openxmlformats.org/officeDocument/2006/relationships/table\" Target=\"{}../{part}\"/>", if enc.sheet_subfolder { "../" } else { "" }));
+                // relative to the sheet part's folder, or (what some writers always do) an absolute part name
+                let target = if enc.target == TargetMode::AbsoluteXl { format!("/xl/{part}") } else { format!("{}../{part}", if enc.sheet_subfolder { "../" } else { "" }) };
+                srel.push_str(&format!("<Relationship Id=\"{rid}\" Type=\"http://schemas.openxmlformats.org/officeDocument/2006/relationships/table\" Target=\"{target}\"/>"));
                 tail.push((format!("xl/{part}"), table_xml(t, table_no)));
                 rids.push(rid);
             }
